@@ -68,23 +68,29 @@ end
 section
 variable (B : Builtins)
 
+/-- The environments of the theorems: `EnvOK` (no stored programs, bindings present, no functions bound by the
+    caller, parameters bound to data), and no parameter has the name of a built-in function or macro
+    (`check_for_const` takes such a name for closed). -/
+structure StdEnv (env : Env) : Prop extends EnvOK env where
+  noShadow : ∀ n, callableName B n = true → env.getParam n = none
+
 /-- What the induction proves of a tree `e`: in every good environment, at every level of the depth budget
     that covers the nesting depth of `e`, the compiled node satisfies the invariant `Inv` of `C05Compile`
     (its code runs to `evalSpec B e env`, a folded constant is that value, chain pieces run), and the value
     is data. -/
-def Good (e : Ast) : Prop :=
-  ∀ b env, EnvOK env → depth e ≤ b → b < maxDepth →
+def GoodRun (e : Ast) : Prop :=
+  ∀ b env, StdEnv B env → depth e ≤ b → b < maxDepth →
     Inv B (runAt B b) (runFresh B) env (compileX B e) (evalSpec B e env) ∧ Data (evalSpec B e env)
 
 /-- The same for a bare `CP` and a value given as a function of the environment. -/
 def CGood (d : Nat) (cp : CP) (valf : Env → Val) : Prop :=
-  ∀ b env, EnvOK env → d ≤ b → b < maxDepth →
+  ∀ b env, StdEnv B env → d ≤ b → b < maxDepth →
     Runs B (runAt B b) (runFresh B) env cp.toCode (valf env) ∧ (∀ c, cp = .const c → c = valf env) ∧
       Data (valf env)
 
 variable {B}
 
-theorem Good.cgood {e : Ast} (h : Good B e) : CGood B (depth e) (compileX B e).cp (evalSpec B e) := by
+theorem GoodRun.cgood {e : Ast} (h : GoodRun B e) : CGood B (depth e) (compileX B e).cp (evalSpec B e) := by
   intro b env henv hd hb
   obtain ⟨i, d⟩ := h b env henv hd hb
   exact ⟨i.runs, fun c hc => (i.const c hc).1, d⟩
@@ -97,14 +103,14 @@ theorem cgood_const {v : Val} (hv : Data v) (d : Nat) : CGood B d (.const v) (fu
   fun _ _ _ _ _ => ⟨runs_push hv.plain, fun c h => (by cases h; rfl), hv⟩
 
 theorem good_of_cgood {e : Ast} (h : CGood B (depth e) (compileX B e).cp (evalSpec B e))
-    (hch : (compileX B e).chain = none) : Good B e := by
+    (hch : (compileX B e).chain = none) : GoodRun B e := by
   intro b env henv hd hb
   obtain ⟨r, c, d⟩ := h b env henv hd hb
   exact ⟨⟨r, fun v hv => ⟨c v hv, by rw [c v hv]; exact d.plain⟩, fun _ _ _ hh => by rw [hch] at hh; cases hh⟩, d⟩
 
 /-! ### the constructors of the smaller fragment, again -/
 
-theorem good_notRun (sp : Span) (ops : List Span) (m : Ast) (h : Good B m) : Good B (.notRun sp ops m) := by
+theorem good_notRun (sp : Span) (ops : List Span) (m : Ast) (h : GoodRun B m) : GoodRun B (.notRun sp ops m) := by
   intro b env henv hd hb
   rw [depth] at hd
   obtain ⟨ih, dm⟩ := h b env henv hd hb
@@ -114,7 +120,7 @@ theorem good_notRun (sp : Span) (ops : List Span) (m : Ast) (h : Good B m) : Goo
   rw [hcx, hes]
   exact ⟨inv_code (runs_unrun henv.noProgs step_not plain_vNot ih.runs _), data_applyN data_vNot dm _⟩
 
-theorem good_negRun (sp : Span) (ops : List Span) (m : Ast) (h : Good B m) : Good B (.negRun sp ops m) := by
+theorem good_negRun (sp : Span) (ops : List Span) (m : Ast) (h : GoodRun B m) : GoodRun B (.negRun sp ops m) := by
   intro b env henv hd hb
   rw [depth] at hd
   obtain ⟨ih, dm⟩ := h b env henv hd hb
@@ -122,8 +128,8 @@ theorem good_negRun (sp : Span) (ops : List Span) (m : Ast) (h : Good B m) : Goo
   rw [cx_neg, hes]
   exact ⟨inv_code (runs_unrun henv.noProgs step_neg plain_neg ih.runs _), data_applyN data_neg dm _⟩
 
-theorem good_bin (sp : Span) (op : BinOp) (l r : Ast) (hl : Good B l) (hr : Good B r) :
-    Good B (.bin sp op l r) := by
+theorem good_bin (sp : Span) (op : BinOp) (l r : Ast) (hl : GoodRun B l) (hr : GoodRun B r) :
+    GoodRun B (.bin sp op l r) := by
   intro b env henv hd hb
   rw [depth] at hd
   obtain ⟨ihl, dl⟩ := hl b env henv (by omega) hb
@@ -173,8 +179,8 @@ theorem good_bin (sp : Span) (op : BinOp) (l r : Ast) (hl : Good B l) (hr : Good
       exact inv_const (plain_apply op a b)
     · exact inv_code (runs_binop hnp (step_binop op) (plain_apply op) ihl.runs ihr.runs)
 
-theorem good_tern (sp : Span) (c t f : Ast) (hc : Good B c) (ht : Good B t) (hf : Good B f) :
-    Good B (.tern sp c t f) := by
+theorem good_tern (sp : Span) (c t f : Ast) (hc : GoodRun B c) (ht : GoodRun B t) (hf : GoodRun B f) :
+    GoodRun B (.tern sp c t f) := by
   intro b env henv hd hb
   rw [depth] at hd
   obtain ⟨ihc, _⟩ := hc b env henv (by omega) hb
@@ -232,10 +238,10 @@ theorem data_matchVal : ∀ (l : List (Val × Val)), (∀ p ∈ l, Data p.2) →
     · exact h _ (List.mem_cons_self ..)
     · exact ih (fun q hq => h q (List.mem_cons_of_mem _ hq))
 
-theorem good_match (hB : BuiltinsOK B) (sp : Span) (s : Ast) (cases : List MCase) (hs : Good B s)
-    (harm : ∀ sp' p b, MCase.mk sp' p b ∈ cases → Good B b)
-    (hcmp : ∀ sp' sp1 sp2 op e b, MCase.mk sp' (.cmp sp1 sp2 op e) b ∈ cases → Good B e) :
-    Good B (.match_ sp s cases) := by
+theorem good_match (hB : BuiltinsOK B) (sp : Span) (s : Ast) (cases : List MCase) (hs : GoodRun B s)
+    (harm : ∀ sp' p b, MCase.mk sp' p b ∈ cases → GoodRun B b)
+    (hcmp : ∀ sp' sp1 sp2 op e b, MCase.mk sp' (.cmp sp1 sp2 op e) b ∈ cases → GoodRun B e) :
+    GoodRun B (.match_ sp s cases) := by
   intro b env henv hd hb
   rw [depth] at hd
   obtain ⟨ihs, ds⟩ := hs b env henv (by omega) hb
@@ -275,7 +281,7 @@ theorem good_match (hB : BuiltinsOK B) (sp : Span) (s : Ast) (cases : List MCase
           | type sp1 t name =>
             rw [evalSpecPat_type]
             simp only [compilePat]
-            exact go_pat_type henv hB ds name)
+            exact go_pat_type henv.toEnvOK hB ds name)
   refine ⟨?_, ?_⟩
   · apply inv_code
     simpa [List.map_map, Function.comp_def] using this
@@ -283,6 +289,365 @@ theorem good_match (hB : BuiltinsOK B) (sp : Span) (s : Ast) (cases : List MCase
     intro p hp
     obtain ⟨c, hc, rfl⟩ := List.mem_map.mp hp
     exact (harm' c hc).2
+
+/-! ### blocks one level down -/
+
+/-- A nested block (call argument, macro body, f-string segment) run by the callback of level `b`. -/
+theorem block_runs {e : Ast} (h : GoodRun B e) {b : Nat} {env : Env} (henv : StdEnv B env) (hd : depth e + 1 ≤ b)
+    (hb : b < maxDepth) (log : Log) :
+    runAt B b env (compileX B e).cp.toCode true log = outOf (evalSpec B e env) log := by
+  cases b with
+  | zero => omega
+  | succ b' => exact runAt_of_runs henv.noProgs b' (h b' env henv (by omega) (by omega)).1.runs log
+
+/-! ### primaries -/
+
+theorem depth_list_le {es : List Ast} {e : Ast} (h : e ∈ es) : depth e ≤ depthList es := by
+  induction es with
+  | nil => cases h
+  | cons x xs ih =>
+    rw [depthList]
+    rcases List.mem_cons.mp h with rfl | h
+    · omega
+    · have := ih h; omega
+
+theorem depth_init_le {inits : List MInit} {i : MInit} (h : i ∈ inits) :
+    depth (initKey i) ≤ depthInits inits ∧ depth (initVal i) ≤ depthInits inits := by
+  induction inits with
+  | nil => cases h
+  | cons x xs ih =>
+    cases x with
+    | mk sp k v =>
+      rw [depthInits]
+      rcases List.mem_cons.mp h with rfl | h
+      · simp only [initKey, initVal]; omega
+      · have := ih h; omega
+
+theorem mem_interleaveKV {α : Type} {l : List (α × α)} {x : α} (h : x ∈ interleaveKV l) :
+    ∃ p ∈ l, x = p.1 ∨ x = p.2 := by
+  induction l with
+  | nil => simp [interleaveKV] at h
+  | cons p ps ih =>
+    obtain ⟨k, v⟩ := p
+    simp only [interleaveKV, List.mem_cons] at h
+    rcases h with rfl | rfl | h
+    · exact ⟨_, List.mem_cons_self .., Or.inr rfl⟩
+    · exact ⟨_, List.mem_cons_self .., Or.inl rfl⟩
+    · obtain ⟨q, hq, hx⟩ := ih h
+      exact ⟨q, List.mem_cons_of_mem _ hq, hx⟩
+
+theorem good_list_prim (sp : Span) (es : List Ast) (ih : ∀ e ∈ es, GoodRun B e) :
+    CGood B (depthPrim (.list sp es)) (compilePrim B (.list sp es)) (evalSpecPrim B (.list sp es)) := by
+  intro b env henv hd hb
+  rw [depthPrim] at hd
+  have ihe : ∀ e ∈ es, Inv B (runAt B b) (runFresh B) env (compileX B e) (evalSpec B e env) ∧ Data (evalSpec B e env) :=
+    fun e he => ih e he b env henv (Nat.le_trans (depth_list_le he) hd) hb
+  have hcp : compilePrim B (.list sp es) =
+      (match allConst (es.map (fun e => (compileX B e).cp)) with
+        | some vs => .const (.list vs)
+        | none => .code (((es.map (fun e => (compileX B e).cp)).map CP.toCode).flatten ++ [.mkList es.length])) := by
+    simp [compilePrim, compileList_eq]
+    rfl
+  have hes : evalSpecPrim B (.list sp es) env = .list (es.map (fun e => evalSpec B e env)) := by
+    simp [evalSpecPrim, evalSpecList_eq]
+  have hdata : Data (Val.list (es.map (fun e => evalSpec B e env))) := by
+    rw [data_list]; intro x hx
+    obtain ⟨e, he, rfl⟩ := List.mem_map.mp hx
+    exact (ihe e he).2
+  rw [hcp, hes]
+  refine ⟨?_, ?_, hdata⟩
+  · split
+    · rename_i vs hvs
+      have := allConst_map (fun e => (compileX B e).cp) (fun e => evalSpec B e env) es vs hvs
+        (fun e he v hv => (((ihe e he).1).const v hv).1)
+      rw [this]
+      exact runs_push hdata.plain
+    · have := runs_mkList (B := B) (rec := runAt B b) (top := runFresh B) henv.noProgs
+        (es.map (fun e => ((compileX B e).cp.toCode, evalSpec B e env)))
+        (fun p hp => by
+          obtain ⟨e, he, rfl⟩ := List.mem_map.mp hp
+          exact (ihe e he).1.runs)
+      simpa [List.map_map, Function.comp_def, CP.toCode] using this
+  · intro c hc
+    split at hc
+    · rename_i vs hvs
+      have := allConst_map (fun e => (compileX B e).cp) (fun e => evalSpec B e env) es vs hvs
+        (fun e he v hv => (((ihe e he).1).const v hv).1)
+      cases hc
+      rw [this]
+    · cases hc
+
+theorem good_map_prim (sp : Span) (inits : List MInit) (ihk : ∀ i ∈ inits, GoodRun B (initKey i))
+    (ihv : ∀ i ∈ inits, GoodRun B (initVal i)) :
+    CGood B (depthPrim (.map sp inits)) (compilePrim B (.map sp inits)) (evalSpecPrim B (.map sp inits)) := by
+  intro b env henv hd hb
+  rw [depthPrim] at hd
+  have ihk' : ∀ i ∈ inits, Inv B (runAt B b) (runFresh B) env (compileX B (initKey i)) (evalSpec B (initKey i) env) ∧
+      Data (evalSpec B (initKey i) env) :=
+    fun i hi => ihk i hi b env henv (Nat.le_trans (depth_init_le hi).1 hd) hb
+  have ihv' : ∀ i ∈ inits, Inv B (runAt B b) (runFresh B) env (compileX B (initVal i)) (evalSpec B (initVal i) env) ∧
+      Data (evalSpec B (initVal i) env) :=
+    fun i hi => ihv i hi b env henv (Nat.le_trans (depth_init_le hi).2 hd) hb
+  -- the children as a list of trees in code order
+  let L : List Ast := interleaveKV (inits.map (fun i => (initKey i, initVal i)))
+  have hL : compileInits B inits = L.map (fun e => (compileX B e).cp) := by
+    rw [compileInits_eq, interleaveKV_map]; simp [List.map_map, Function.comp_def]
+  have ihL : ∀ e ∈ L, Inv B (runAt B b) (runFresh B) env (compileX B e) (evalSpec B e env) := by
+    intro e he
+    obtain ⟨q, hq, hx⟩ := mem_interleaveKV he
+    obtain ⟨i, hi, rfl⟩ := List.mem_map.mp hq
+    rcases hx with rfl | rfl
+    · exact (ihk' i hi).1
+    · exact (ihv' i hi).1
+  have hcp : compilePrim B (.map sp inits) =
+      (match allConst (L.map (fun e => (compileX B e).cp)) with
+        | some vs => .const (foldMap vs [])
+        | none => .code (((L.map (fun e => (compileX B e).cp)).map CP.toCode).flatten ++ [.mkDict inits.length])) := by
+    simp only [compilePrim, hL]
+    rfl
+  have hes : evalSpecPrim B (.map sp inits) env =
+      mkMap (inits.map (fun i => (evalSpec B (initKey i) env, evalSpec B (initVal i) env))) := by
+    simp [evalSpecPrim, evalSpecInits_eq]
+  have hdata : Data (mkMap (inits.map (fun i => (evalSpec B (initKey i) env, evalSpec B (initVal i) env)))) := by
+    apply data_mkMap
+    intro q hq
+    obtain ⟨i, hi, rfl⟩ := List.mem_map.mp hq
+    exact (ihv' i hi).2
+  have hLval : L.map (fun e => evalSpec B e env) =
+      interleaveKV (inits.map (fun i => (evalSpec B (initKey i) env, evalSpec B (initVal i) env))) := by
+    simp only [L]; rw [interleaveKV_map]; simp [List.map_map, Function.comp_def]
+  have hconst : ∀ vs, allConst (L.map (fun e => (compileX B e).cp)) = some vs → foldMap vs [] =
+      mkMap (inits.map (fun i => (evalSpec B (initKey i) env, evalSpec B (initVal i) env))) := by
+    intro vs hvs
+    have := allConst_map (fun e => (compileX B e).cp) (fun e => evalSpec B e env) L vs hvs
+      (fun e he v hv => ((ihL e he).const v hv).1)
+    rw [this, hLval, foldMap_nil_eq_mkMap]
+  rw [hcp, hes]
+  refine ⟨?_, ?_, hdata⟩
+  · split
+    · rename_i vs hvs
+      rw [hconst vs hvs]
+      exact runs_push hdata.plain
+    · have := runs_mkDict (B := B) (rec := runAt B b) (top := runFresh B) henv.noProgs
+        (inits.map (fun i => (((compileX B (initKey i)).cp.toCode, evalSpec B (initKey i) env),
+          ((compileX B (initVal i)).cp.toCode, evalSpec B (initVal i) env))))
+        (fun p hp => by
+          obtain ⟨i, hi, rfl⟩ := List.mem_map.mp hp
+          exact (ihk' i hi).1.runs)
+        (fun p hp => by
+          obtain ⟨i, hi, rfl⟩ := List.mem_map.mp hp
+          exact (ihv' i hi).1.runs)
+      have hcode : (L.map (fun e => (compileX B e).cp)).map CP.toCode =
+          (interleaveKV (inits.map (fun i => (((compileX B (initKey i)).cp.toCode, evalSpec B (initKey i) env),
+            ((compileX B (initVal i)).cp.toCode, evalSpec B (initVal i) env))))).map (·.1) := by
+        simp only [L]
+        rw [interleaveKV_map, interleaveKV_map, interleaveKV_map]
+        simp [List.map_map, Function.comp_def]
+      rw [hcode]
+      simpa [List.map_map, Function.comp_def, CP.toCode] using this
+  · intro c hc
+    split at hc
+    · rename_i vs hvs
+      cases hc
+      exact hconst vs hvs
+    · cases hc
+
+/-! ### environments that closed code cannot tell apart -/
+
+end
+section
+variable (B : Builtins)
+
+/-- `check_for_const`'s test: every identifier is bound at compile time (function, macro or type) and none is a
+    clock function. -/
+def Closed (ids : List Str) : Prop :=
+  ids.all (fun n => compileBound B n && !(clockFunctions.any (·.toList = n))) = true
+
+/-- Two environments agree on the names `ids` (as values and in call position) and on every method name of
+    the fragment. -/
+structure AgreeOn (ids : List Str) (e1 e2 : Env) : Prop where
+  b1 : e1.hasBinds = true
+  b2 : e2.hasBinds = true
+  res : ∀ n ∈ ids, resolveIdent e1 n = resolveIdent e2 n
+  kind : ∀ n ∈ ids, fnKind B e1 n = fnKind B e2 n
+  meth : ∀ o name, methodOK B name = true → methodKind B e1 o name = methodKind B e2 o name
+
+/-- `valf` does not distinguish environments that agree on `ids`. -/
+def Irr (ids : List Str) (valf : Env → Val) : Prop := ∀ e1 e2, AgreeOn B ids e1 e2 → valf e1 = valf e2
+
+variable {B}
+
+theorem AgreeOn.mono {ids ids' : List Str} {e1 e2 : Env} (h : AgreeOn B ids e1 e2) (hs : ∀ n ∈ ids', n ∈ ids) :
+    AgreeOn B ids' e1 e2 :=
+  ⟨h.b1, h.b2, fun n hn => h.res n (hs n hn), fun n hn => h.kind n (hs n hn), h.meth⟩
+
+theorem AgreeOn.left {a b : List Str} {e1 e2 : Env} (h : AgreeOn B (a ++ b) e1 e2) : AgreeOn B a e1 e2 :=
+  h.mono (fun _ hn => List.mem_append_left _ hn)
+theorem AgreeOn.right {a b : List Str} {e1 e2 : Env} (h : AgreeOn B (a ++ b) e1 e2) : AgreeOn B b e1 e2 :=
+  h.mono (fun _ hn => List.mem_append_right _ hn)
+
+theorem resolveIdent_bind (e : Env) (hb : e.hasBinds = true) (x : Str) (v : Val) (n : Str) :
+    resolveIdent (e.bind x v) n =
+      match typeByName n with
+      | some t => t
+      | none => if x = n then v else resolveIdent e n := by
+  simp only [resolveIdent, Env.getType, Env.getParam, Env.bind, hb, if_true, lookup]
+  cases typeByName n with
+  | some t => rfl
+  | none =>
+    simp only
+    by_cases hx : x = n <;> simp [hx]
+
+theorem fnKind_bind (e : Env) (x : Str) (v : Val) (n : Str) : fnKind B (e.bind x v) n = fnKind B e n := rfl
+theorem methodKind_bind (e : Env) (x : Str) (v o : Val) (n : Str) :
+    methodKind B (e.bind x v) o n = methodKind B e o n := rfl
+
+theorem AgreeOn.bind {ids : List Str} {e1 e2 : Env} (h : AgreeOn B ids e1 e2) (x : Str) (v : Val) :
+    AgreeOn B ids (e1.bind x v) (e2.bind x v) := by
+  refine ⟨h.b1, h.b2, ?_, ?_, ?_⟩
+  · intro n hn
+    rw [resolveIdent_bind e1 h.b1, resolveIdent_bind e2 h.b2]
+    cases htn : typeByName n with
+    | some t => rfl
+    | none =>
+      simp only
+      by_cases hx : x = n
+      · simp [hx]
+      · simp only [hx, if_false]; exact h.res n hn
+  · intro n hn; rw [fnKind_bind, fnKind_bind]; exact h.kind n hn
+  · intro o name hm; rw [methodKind_bind, methodKind_bind]; exact h.meth o name hm
+
+theorem compileEnv_std : StdEnv B compileEnv :=
+  { noProgs := fun n => rfl, binds := rfl, noUser := rfl,
+    params := fun n v h => by simp [Env.getParam, compileEnv, lookup] at h,
+    noShadow := fun n _ => rfl }
+
+theorem StdEnv.bind {env : Env} (h : StdEnv B env) {x : Str} (hx : callableName B x = false) {v : Val} (hv : Data v) :
+    StdEnv B (env.bind x v) := by
+  refine { toEnvOK := h.toEnvOK.bind x hv, noShadow := ?_ }
+  intro n hn
+  have hne : x ≠ n := by intro hh; subst hh; rw [hx] at hn; cases hn
+  have := h.noShadow n hn
+  simp only [Env.getParam, Env.bind, h.binds, if_true, lookup, hne, if_false] at this ⊢
+  exact this
+
+theorem typeName_not_macro {n : Str} {t : Val} (h : typeByName n = some t) :
+    defaultMacros.any (·.toList = n) = false := by
+  have key : ∀ m ∈ defaultMacros, typeByName m.toList = none := by decide
+  cases hm : defaultMacros.any (·.toList = n)
+  · rfl
+  · rw [List.any_eq_true] at hm
+    obtain ⟨m, hmem, hmn⟩ := hm
+    simp only [decide_eq_true_eq] at hmn
+    subst hmn
+    rw [key m hmem] at h
+    cases h
+
+theorem compile_macro_default {n : Str} (h : compileMacros.any (·.toList = n) = true) :
+    defaultMacros.any (·.toList = n) = true := by
+  simp only [compileMacros, defaultMacros, List.any_cons, List.any_nil, Bool.or_false, Bool.or_eq_true,
+    decide_eq_true_eq] at h ⊢
+  rcases h with h | h | h | h | h | h <;> simp [h]
+
+theorem default_macro_compile {n : Str} (h : defaultMacros.any (·.toList = n) = true)
+    (h1 : n ≠ "has".toList) (h2 : n ≠ "coalesce".toList) : compileMacros.any (·.toList = n) = true := by
+  simp only [compileMacros, defaultMacros, List.any_cons, List.any_nil, Bool.or_false, Bool.or_eq_true,
+    decide_eq_true_eq] at h ⊢
+  rcases h with h | h | h | h | h | h | h | h
+  · exact absurd h.symm h1
+  · simp [h]
+  · simp [h]
+  · simp [h]
+  · simp [h]
+  · simp [h]
+  · simp [h]
+  · exact absurd h.symm h2
+
+/-- Outside compile mode the macros are the default ones; in compile mode `has` and `coalesce` are missing. -/
+theorem isMacro_eq_compile {env : Env} (hb : env.hasBinds = true) {n : Str}
+    (h : n ≠ "has".toList ∧ n ≠ "coalesce".toList ∨ defaultMacros.any (·.toList = n) = false ∨
+      compileMacros.any (·.toList = n) = true) :
+    env.isMacro n = compileMacros.any (·.toList = n) := by
+  unfold Env.isMacro
+  rw [hb, Bool.true_and]
+  split
+  · rfl
+  · cases hd : defaultMacros.any (·.toList = n) with
+    | false =>
+      cases hc : compileMacros.any (·.toList = n) with
+      | false => rfl
+      | true => rw [compile_macro_default hc] at hd; cases hd
+    | true =>
+      rcases h with ⟨h1, h2⟩ | h | h
+      · exact (default_macro_compile hd h1 h2).symm
+      · rw [hd] at h; cases h
+      · exact h.symm
+
+theorem closed_mem {ids : List Str} (h : Closed B ids) {n : Str} (hn : n ∈ ids) :
+    compileBound B n = true ∧ clockFunctions.any (·.toList = n) = false := by
+  unfold Closed at h
+  rw [List.all_eq_true] at h
+  have := h n hn
+  simpa using this
+
+theorem closed_append {a b : List Str} : Closed B (a ++ b) ↔ Closed B a ∧ Closed B b := by
+  simp [Closed, List.all_append]
+
+/-- What closed code can observe is the same at compile time and in every standard environment. -/
+theorem agree_of_closed {ids : List Str} (hc : Closed B ids) {env : Env} (henv : StdEnv B env) :
+    AgreeOn B ids compileEnv env := by
+  refine ⟨rfl, henv.binds, ?_, ?_, ?_⟩
+  · intro n hn
+    obtain ⟨hb, _⟩ := closed_mem hc hn
+    simp only [resolveIdent, Env.getType, henv.binds, compileEnv, if_true]
+    cases htn : typeByName n with
+    | some t => rfl
+    | none =>
+      have hcall : callableName B n = true := by
+        simp only [compileBound, htn, Option.isSome_none, Bool.or_false, Bool.or_eq_true] at hb
+        simp only [callableName, Bool.or_eq_true]
+        rcases hb with hb | hb
+        · exact Or.inl hb
+        · right
+          have : compileMacros.any (·.toList = n) = true := by simpa [Env.isMacro, compileEnv] using hb
+          exact compile_macro_default this
+      have hp := henv.noShadow n hcall
+      simp only [hp]
+      simp [Env.getParam, lookup]
+  · intro n hn
+    obtain ⟨hb, _⟩ := closed_mem hc hn
+    unfold fnKind
+    cases hf : B.func n with
+    | some f => rfl
+    | none =>
+      simp only
+      have hcase : defaultMacros.any (·.toList = n) = false ∨ compileMacros.any (·.toList = n) = true := by
+        simp only [compileBound, hf, Option.isSome_none, Bool.false_or, Bool.or_eq_true] at hb
+        rcases hb with hb | hb
+        · right; simpa [Env.isMacro, compileEnv] using hb
+        · left
+          cases htn : typeByName n with
+          | none => simp [htn] at hb
+          | some t => exact typeName_not_macro htn
+      have hm : env.isMacro n = compileEnv.isMacro n := by
+        rw [isMacro_eq_compile henv.binds (Or.inr hcase), isMacro_eq_compile (env := compileEnv) rfl (Or.inr hcase)]
+      rw [hm]
+      simp [Env.getType, henv.binds, compileEnv]
+  · intro o name hm
+    unfold methodKind
+    cases hfe : fieldEntry o name with
+    | some v => cases v <;> rfl
+    | none =>
+      simp only
+      cases hf : B.func name with
+      | some f => rfl
+      | none =>
+        simp only
+        have h12 : name ≠ "has".toList ∧ name ≠ "coalesce".toList := by
+          simp only [methodOK, hf, Option.isSome_none, Bool.false_or, Bool.not_eq_true', Bool.or_eq_false_iff,
+            decide_eq_false_iff_not] at hm
+          exact hm
+        rw [isMacro_eq_compile henv.binds (Or.inl h12), isMacro_eq_compile (env := compileEnv) rfl (Or.inl h12)]
 
 end
 
